@@ -188,9 +188,9 @@ func genFastAppendList(w *codewriter, rwctx *golang.ReadWriteContext, varname st
 }
 
 func genFastAppendMap(w *codewriter, rwctx *golang.ReadWriteContext, varname string, depth int) {
-	t := rwctx.Type
-	kt := t.KeyType
-	vt := t.ValueType
+	// resolved key/value types (a typedef'd map has no KeyType/ValueType of its own)
+	kt := rwctx.KeyCtx.Type
+	vt := rwctx.ValCtx.Type
 	// map header
 	w.f("b = x.AppendMapBegin(b, %s, %s, len(%s))",
 		category2GopkgConsts[kt.Category], category2GopkgConsts[vt.Category], varname)
